@@ -941,6 +941,9 @@ def run(tier):
             raised += bool(res.violation(key, {"observed": j.get("detail")}, "convert_tanh_sigmoid_to_lut did not produce a table: %r" % (j.get("detail"),)))
         elif j.get("precheck"):
             x, v, tgt = j["precheck"][0]
+            if j["key"]["table"] == "sigmoid":
+                # do all failing codes lie where clamp_sigmoid replaces the function by 0 / 1 (|x_real| >= 8)?
+                key["only_beyond_cutoff_8"] = all(abs(j["key"]["ifm_scale"] * (c - j["key"]["zp_in"])) >= 8 for c, _, _ in j["precheck"])
             raised += bool(res.violation(key, {"code": x, "table_value": v, "real_value": tgt, "n_entries_failing": len(j["precheck"]),
                                                "certificate": j.get("file"), "coqc": j.get("log", "")[-600:]},
                                          "%s table entry for code %d is %d but f(dequant)/s_out+zp = %.6f: not the rounded and saturated value" % (
